@@ -438,7 +438,16 @@ func (p *processor) Propagate(event *Event) {
 	nextActionIdx := event.action
 	p.tryResetBusy(nextActionIdx - 1)
 	verifTrace(vtProcPropagate, p, verifID(event.stream), int64(event.SeqID), int64(nextActionIdx), 0)
-	p.processSequence(event)
+
+	// run the remaining actions once; do not wait here for the next event of the stream when a
+	// later action holds the propagated event: the caller is still inside Do for the event that
+	// triggered the flush, and the processEvent loop it returns to does the waiting.
+	if passed, _ := p.doActions(event); passed {
+		verifGate(vgProcBeforeOut, p)
+		verifTrace(vtProcOut, p, verifID(event.stream), int64(event.SeqID), int64(event.kind), 0)
+		event.stage = eventStageOutput
+		p.router.Out(event)
+	}
 }
 
 func (p *processor) IncMaxEventSizeExceeded(lvs ...string) {
